@@ -716,7 +716,7 @@ struct Batch {
 
 fn drive(a: &Args) {
     let mut tr = Tracer::new(&a.out, "c12");
-    tr.max_events = a.get_u64("max-events", 2600) as usize;
+    tr.max_events = a.get_u64("max-events", 8000) as usize;
     let mut stats: BTreeMap<String, Stat> = BTreeMap::new();
     let all = subjects();
     let map_a = [b'a', b'b', b'c'];
@@ -772,6 +772,8 @@ fn drive(a: &Args) {
             }
             let (fam, variant) = subject.split_once(':').unwrap();
             let st = stats.entry(subject.to_string()).or_default();
+            // one subject per trace file: a known-finding pass then re-reads only that subject's events
+            tr.close();
             let comp = if fam == "csa" {
                 match guard(|| SuffixArrayCompressor::new(csa_config(variant))) {
                     Ok(Ok(c)) => Some(c),
